@@ -6,7 +6,7 @@ META = {
     "technique": "static analysis: CFG reachability of discriminator chains + path-sensitive abstract "
                  "interpretation of the backend constructors (dispatch / must-inspect rules); table of required rejections decided on raising paths with polarity; driver-class dispatch table",
     "design_ref": "DESIGN.md §5 C04, A.6",
-    "explanation": "DISPATCH rules: (a) every if/elif chain on an enumerated discriminator (interaction type, "
+    "explanation": "HAM-mps: every make_H call of the emu-mps drivers binds hamiltonian_type=self.hamiltonian_type and dim=self.dim (copied from the sequence data) and the matrix just stored as current - never a callee default (a rebuild after the SLM switch must not change the interaction kind). DISPATCH-sv: jump operators present => (EvolveDensityMatrix, DensityMatrix), none => (EvolveStateVector, StateVector). DISPATCH rules: (a) every if/elif chain on an enumerated discriminator (interaction type, "
                    "basis, Hamiltonian type, noise type, eigenstates) ends in raise on the none-matched path; "
                    "(b) every normal path through each backend driver's constructor/init has decided on the "
                    "SequenceData's hamiltonian_type and level count (forwarded to a dispatching parameter or "
